@@ -127,7 +127,9 @@ pub fn check_sym(case: &SymCase) -> CaseResult {
             return Err(Failure::new(format!("chmod-sym|link-or-target-altered|{}", cls), format!("{:?}: link mode {:o}, target mode {:o}", case, mode, tmode)));
         }
         return match reference {
-            Err(0) if !is_err && !case.stdfs => Ok(()), // a malformed expression met only by a link: nothing to apply
+            // a malformed first clause is reported whatever kind of entry it meets (fix 9a7d7f6; before it a link
+            // made both backends accept the expression unread)
+            Err(0) if !is_err => Err(Failure::new(format!("chmod-sym|malformed-first-clause-accepted|{}", cls), format!("{:?} returned Ok", case))),
             _ => Ok(()),
         };
     }
@@ -463,6 +465,10 @@ pub fn run(c: &Ctx) {
         let trees: Vec<Vec<Op>> = vec![
             vec![d("/a", 0o750), f("/a/f"), d("/a/sub", 0o700), d("/ab", 0o755), f("/ab/g"), l("/ab/peer", "/a"), l("/ab/lf", "/a/f"), d("/b", 0o711), d("/b/a", 0o755), l("/b/a/up", "/b"), Op::Chown("/a/f".into(), 7, 8)],
             vec![d("/data1", 0o755), f("/data1/x"), d("/data10", 0o755), l("/data10/peer", "/data1"), d("/data10/in", 0o700), l("/data10/in/back", "/data10"), l("/dang", "/nope")],
+            // a chain of links to a file (what a following call reaches is the end of the chain, never a link on the
+            // way; whether a recursive following call DESCENDS through a chain that ends in a directory is the
+            // traversal's business, unspecified there, and stays out)
+            vec![d("/c", 0o755), f("/c/f"), l("/c/l2", "/c/f"), l("/c/l1", "/c/l2"), d("/o", 0o711), l("/o/into", "/c/l1"), f("/o/h")],
         ];
         let mut cases: Vec<Vec<Op>> = vec![];
         for t in &trees {
